@@ -13,6 +13,12 @@ LOGIC = 'std::logic_error'
 LOGIC_DERIVED = {'std::logic_error', 'std::domain_error', 'std::invalid_argument', 'std::length_error', 'std::out_of_range'}
 
 
+def is_qualified_impl(F, cls):
+    """is `cls` (possibly written with const / pointer decoration) a class that implements ipr::Qualified?"""
+    c = (cls or '').replace('const ', '').rstrip('*& ').strip()
+    return c in F.rec and F.derives_from(c, 'ipr::Qualified')
+
+
 def union_of(t, a, b):
     return t in (('op', '|', a, b), ('op', '|', b, a))
 
@@ -309,16 +315,16 @@ def run(ck, F, prefix='C11'):
     makers = set()
     for g in F.fn.values():
         for n in walk(g.get('body')):
-            if n.get('k') in ('ctor', 'new') and ('Composite<ipr::Qualified>' in (n.get('cls') or n.get('type') or '')):
+            if n.get('k') in ('ctor', 'new') and is_qualified_impl(F, n.get('cls') or n.get('type') or ''):
                 if not (n.get('k') == 'ctor' and n.get('copy')):
                     makers.add(g['id'])
     for c in F.constructs.values():
-        if 'Composite<ipr::Qualified>' in c.get('cls', '') and not c.get('copy'):
+        if is_qualified_impl(F, c.get('cls', '')) and not c.get('copy'):
             # who asks the standard library to construct one: the callers of this construct_at instantiation
             callers = {g['id'] for g in F.fn.values() for n in walk(g.get('body'))
                        if n.get('k') == 'call' and (n.get('callee') or {}).get('id', '').startswith(c['fn'] + '(')}
             makers.update(callers or {c['fn']})
-    QTAB = F.role_field('ipr::impl::type_factory', lambda fl: 'rb_tree::container<' in fl['t'] and 'ipr::Qualified' in fl['t'], 'table of qualified types')
+    QTAB = F.role_field('ipr::impl::type_factory', lambda fl: fl['t'].startswith('ipr::util::rb_tree::container<') and is_qualified_impl(F, fl['t'][len('ipr::util::rb_tree::container<'):-1]), 'table of qualified types')
     tab_users = {g['id'] for g in F.fn.values() for n in walk(g.get('body'))
                  if n.get('k') == 'member' and n.get('name') == QTAB and n.get('cls') == 'ipr::impl::type_factory'}
     only_node = all('rb_tree::container<' in m and 'make_node' in m for m in makers)
